@@ -42,13 +42,15 @@ def classify(mech, case, got, ref):
 
 def plan(tier, seed):
     k = NSHARDS[tier]
-    return [{'k': k, 'i': i, 'n': CASES[tier] // k} for i in range(k)] + [{'kind': 'typed', 'i': i, 'n': 150 if tier == 'quick' else 1500} for i in range(2 if tier == 'quick' else 8)]
+    return [{'k': k, 'i': i, 'n': CASES[tier] // k} for i in range(k)] + [{'kind': 'typed', 'i': i, 'n': 150 if tier == 'quick' else 1500} for i in range(2 if tier == 'quick' else 8)] + [{'kind': 'js-templates', 'n': 200 if tier == 'quick' else 2000}]
 
 
 def run_shard(spec, res):
     ns = env.import_rbql()
     if spec.get('kind') == 'typed':
         return leg_typed(ns, res, spec)
+    if spec.get('kind') == 'js-templates':
+        return leg_js_templates(res, spec)
     rng = random.Random(spec['seed'] * 1000003 + spec['i'])
     js = common.JsLeg(res, PROPERTY, classify)
     try:
@@ -181,11 +183,53 @@ def leg_typed(ns, res, spec):
             res.sample({'leg': 'typed', 'front_end': front, 'columns': names, 'kinds': kinds, 'rows': [[show(v) for v in r] for r in rows][:3]})
 
 
+# ---------------------------------------------------------------------------------------------------------------
+# JS only: template literals (the port's counterpart of f-strings) - column references inside ${...} are code, quote characters around them are text
+
+def leg_js_templates(res, spec):
+    import json
+    from ..js import bridge
+    node = bridge.Node.start()
+    if node is None:
+        res.notes.append('js templates leg: unavailable (no node)')
+        return
+    rng = random.Random(spec['seed'] * 7919 + 13)
+    T = [
+        ("select `'${a[2]}'`, a1", lambda r, nr: ["'%s'" % r[1], r[0]], None),
+        ("select a1, `it's ${a[2]}` + 'x'", lambda r, nr: [r[0], "it's %sx" % r[1]], None),
+        ('select `"${a[1]}" and \'${a[3]}\'`', lambda r, nr: ['"%s" and \'%s\'' % (r[0], r[2])], None),
+        ("select a1 where `'${a[2]}'` == \"'b'\"", lambda r, nr: [r[0]], lambda r, nr: r[1] == 'b'),
+        ("select `${a1}-${a[2]}`, 'lit'", lambda r, nr: ['%s-%s' % (r[0], r[1]), 'lit'], None),
+        ("select `'${a2}'`, `\"${a3}\"`", lambda r, nr: ["'%s'" % r[1], '"%s"' % r[2]], None),
+        ("select `don't`, a[3], 'x'", lambda r, nr: ["don't", r[2], 'x'], None),
+        ("select `${NR}: \"${a[2]}\"`, \"it's\", a[1]", lambda r, nr: ['%d: "%s"' % (nr, r[1]), "it's", r[0]], None),
+        ("select a[3] where `${a[1]}'` != `b'`", lambda r, nr: [r[2]], lambda r, nr: r[0] != 'b'),
+        ("select `a[2] is '${a[2]}', a1 is \"${a1}\"`", lambda r, nr: ['a[2] is \'%s\', a1 is "%s"' % (r[1], r[0])], None),
+    ]
+    try:
+        reqs, meta = [], []
+        for n in range(spec['n']):
+            A = [[rng.choice(['a', 'b', 'x y', '', 'q"t', "it's", '10']) for _ in range(3)] for _ in range(rng.randrange(1, 5))]
+            q, proj, pred = T[n % len(T)]
+            reqs.append({'query': q, 'input': A, 'join': None, 'input_cols': None, 'join_cols': None})
+            meta.append((q, A, [proj(r, i + 1) for i, r in enumerate(A) if pred is None or pred(r, i + 1)]))
+        outs = node.call({'op': 'query_batch', 'cases': reqs})['results']
+        for (q, A, exp), o in zip(meta, outs):
+            res.evaluations += 1
+            res.count('js_template_literal_runs')
+            res.nontrivial('js-template', q, json.dumps(A))
+            if o['error'] is not None or o['out'] != exp:
+                res.violation('js:template-literal-projection-differs', '[js] %s over %r -> %r (error %r) ; expected %r' % (q, A, o['out'], o['error'] and o['error']['msg'][:100], exp), {'leg': 'js-templates', 'query_text': q, 'A': A, 'engine': 'js'})
+        res.sample({'leg': 'js-templates', 'queries': [t[0] for t in T[:4]]})
+    finally:
+        node.close()
+
+
 def summarize(tier, seed, m):
     shapes = sorted(k[6:] for k in m['counters'] if k.startswith('shape:'))
     return {
-        'rule': 'structured SELECT queries (1-4 items over fields in 5 spellings, typed expressions, literals, *, a.*, b.*, * EXCEPT, UNNEST; WHERE; INNER/LEFT JOIN with 1-3 key pairs incl. NR/bNR; TOP) generated with a systematic sweep over the 64 clause combinations plus seeded random choices, on random tables of str/None cells (ragged, empty, up to 40 rows, 12 columns), with and without header; each executed through rbql.query with probe iterator/writer/registry and compared (rows exactly and in order, header, error class + record number) with the reference interpreter; the language-neutral ones also on the JS engine; a typed front-ends leg: dataframes (int64 / float64 / bool / object columns, all-numeric frames, integers beyond 2**53, a named index, a two-level named index) through DataframeIterator and sqlite tables (INTEGER / REAL / TEXT / BLOB / untyped columns with NULLs) through SqliteRecordIterator, ten select / where shapes each (two of them with the bare cell as the predicate, over columns holding NaN, inf, 0, 0.0, empty strings and NULLs), every emitted field compared with the cell by value AND type. distinct_nontrivial = distinct (query text, tables) with a non-empty reference result or a predicted error.',
-        'required': ['py_cases', 'emitted_records_observed', 'js_cases', 'typed_front_end_runs:pandas', 'typed_front_end_runs:sqlite'],
+        'rule': 'structured SELECT queries (1-4 items over fields in 5 spellings, typed expressions, literals, *, a.*, b.*, * EXCEPT, UNNEST; WHERE; INNER/LEFT JOIN with 1-3 key pairs incl. NR/bNR; TOP) generated with a systematic sweep over the 64 clause combinations plus seeded random choices, on random tables of str/None cells (ragged, empty, up to 40 rows, 12 columns), with and without header; each executed through rbql.query with probe iterator/writer/registry and compared (rows exactly and in order, header, error class + record number) with the reference interpreter; the language-neutral ones also on the JS engine; a typed front-ends leg: dataframes (int64 / float64 / bool / object columns, all-numeric frames, integers beyond 2**53, a named index, a two-level named index) through DataframeIterator and sqlite tables (INTEGER / REAL / TEXT / BLOB / untyped columns with NULLs) through SqliteRecordIterator, ten select / where shapes each (two of them with the bare cell as the predicate, over columns holding NaN, inf, 0, 0.0, empty strings and NULLs), every emitted field compared with the cell by value AND type; a JS template-literal leg: ten select / where shapes whose items are template literals with column references inside ${...} and quote characters around them. distinct_nontrivial = distinct (query text, tables) with a non-empty reference result or a predicted error.',
+        'required': ['py_cases', 'emitted_records_observed', 'js_cases', 'typed_front_end_runs:pandas', 'typed_front_end_runs:sqlite', 'js_template_literal_runs'],
         'extra': {'shapes_seen': shapes},
         'assumptions': ['rv/model/refsem.py is the relational semantics of the statement', 'expressions are drawn from the typed vocabulary of rv/model/qast.py'],
     }
